@@ -17,7 +17,7 @@ if $applies; then
   for c in $checks; do
     t0=$(date +%s)
     CALMJS_VERIF_REPO=$wt CALMJS_VERIF_EVIDENCE=$ev timeout ${TMO:-1800} /verif/check $c --tier $tier >$ev/$c.log 2>&1; rc=$?
-    nv=$(grep -a -c '^VIOLATION' $ev/$c.log); first=$(grep -a -m1 '^VIOLATION' $ev/$c.log | sed 's/.*# //' | cut -c1-160 | tr '"\\' "' ")
+    nv=$(grep -a -c '^VIOLATION' $ev/$c.log); first=$(grep -a -m1 '^VIOLATION' $ev/$c.log | sed 's/.*# //' | cut -c1-160 | tr '"\\' "' " | tr -d '\000-\037')
     res="$res{\"check\":\"$c\",\"rc\":$rc,\"violations\":$nv,\"s\":$(( $(date +%s)-t0 )),\"first\":\"$first\"},"
   done
 fi
